@@ -38,6 +38,7 @@ cfg("MC_exec_args.cfg", exec_consts(FieldAlpha="<- AlphaArgs", ArgOpts="<- ArgOp
 cfg("MC_exec_frag.cfg", exec_consts(FieldAlpha="<- AlphaFrag", Aliases='= {""}', Conds='= {"T", "P", "A", "Query"}', MaxFrags="= 2", MaxSel="= 4", MaxOverlay="= 0"), EXEC_INV)
 cfg("MC_exec_fragq.cfg", exec_consts(FieldAlpha="<- AlphaFragQ", Aliases='= {""}', Conds='= {"T", "Query"}', MaxFrags="= 3", MaxSel="= 5", MaxOverlay="= 0"), EXEC_INV)
 cfg("MC_exec_dirs.cfg", exec_consts(FieldAlpha="<- AlphaDirs", Aliases='= {""}', Conds='= {""}', DirOpts="<- DirsBoth", MaxSel="= 3", MaxOverlay="= 0"), EXEC_INV)
+cfg("MC_exec_dirs2.cfg", exec_consts(FieldAlpha="<- AlphaDirs2", Aliases='= {""}', DirOpts="<- DirsMix", MaxSel="= 4", MaxOverlay="= 0"), EXEC_INV)
 cfg("MC_exec_ops.cfg", exec_consts(FieldAlpha="<- AlphaOps", Aliases='= {""}', MaxOps="= 2", MaxFrags="= 1", Conds='= {"T"}', OpTypes='= {"query", "mutation"}', MaxSel="= 4", MaxOverlay="= 0", DirOpts="<- DirsVarOnly"), EXEC_INV)
 cfg("MC_exec_mut.cfg", exec_consts(FieldAlpha="<- AlphaMut", OpTypes='= {"mutation"}', Aliases='= {"", "z"}', MaxSel="= 4"), EXEC_INV)
 cfg("MC_exec_merge.cfg", exec_consts(FieldAlpha="<- AlphaMerge", Aliases='= {""}', Conds='= {"A", "B"}', MaxSel="= 6", MaxDepth="= 4", MaxOverlay="= 0"), EXEC_INV)
@@ -115,14 +116,14 @@ for cap, nm in ((0, "off"), (1, "k1"), (2, "k2"), (99, "inf")):
 # ---- C14: subscriptions ----------------------------------------------------------------------
 SUB_INV = ["R1_Sub", "EmitSub"]
 def sub_consts(**kw):
-    d = fault_consts(OpTypes='= {"subscription"}', MaxEvents="= 2", EventKinds="<- EvKinds", AllowRefused="= TRUE", FieldAlpha="<- AlphaSub", ArgOpts="<- ArgOptsSub", Aliases='= {"", "z"}', MaxSel="= 3")
+    d = fault_consts(OpTypes='= {"subscription"}', MaxEvents="= 2", EventKinds="<- EvKinds", AllowRefused="= TRUE", FieldAlpha="<- AlphaSub", ArgOpts="<- ArgOptsSub", Aliases='= {"", "z"}', MaxSel="= 3", VarVals="<- VarValsSmall")
     d.update(kw)
     return d
 cfg("MC_sub_2.cfg", sub_consts(MaxSel="= 2"), SUB_INV, spec="SpecSub", props=["SubProgress"])
-cfg("MC_sub_3.cfg", sub_consts(MaxEvents="= 3", MaxSel="= 2", Aliases='= {""}', FieldAlpha="<- AlphaSub3", AllowRefused="= FALSE", EventKinds="<- EvKinds2"), SUB_INV, spec="SpecSub", props=["SubProgress"])
+cfg("MC_sub_3.cfg", sub_consts(MaxEvents="= 3", MaxSel="= 2", Aliases='= {""}', FieldAlpha="<- AlphaSub3", AllowRefused="= FALSE", EventKinds="<- EvKinds2", ArgOpts="<- ArgOptsSub3"), SUB_INV, spec="SpecSub", props=["SubProgress"])
 cfg("MC_sub_2_big.cfg", sub_consts(), SUB_INV, spec="SpecSub", props=["SubProgress"])
 cfg("MC_sub_3_big.cfg", sub_consts(MaxEvents="= 3", MaxSel="= 2", Aliases='= {""}'), SUB_INV, spec="SpecSub", props=["SubProgress"])
-cfg("MC_sub_frag.cfg", sub_consts(MaxEvents="= 2", MaxSel="= 3", Aliases='= {""}', MaxFrags="= 1", Conds='= {"T", "Subscription"}', FieldAlpha="<- AlphaSub2", AllowRefused="= FALSE"), SUB_INV, spec="SpecSub", props=["SubProgress"])
+cfg("MC_sub_frag.cfg", sub_consts(MaxEvents="= 2", MaxSel="= 3", Aliases='= {""}', MaxFrags="= 1", Conds='= {"T", "Subscription"}', FieldAlpha="<- AlphaSub2", AllowRefused="= FALSE", ArgOpts="<- ArgOptsSub3"), SUB_INV, spec="SpecSub", props=["SubProgress"])
 
 # ---- simulation configs: large documents for the R3 drivers ---------------------------------
 cfg("MC_exec_sim.cfg", exec_consts(FieldAlpha="<- AlphaAll", Aliases='= {"", "z"}', Conds='= {"", "T", "P", "A", "B", "C", "U", "Query"}', DirOpts="<- DirsBoth",
